@@ -8,7 +8,7 @@ HS_CHUNK = 4000      # lines per TLC validation run
 def run(ctx):
     ctx.level = "model_checking"
     ctx.cov["rule"] = ("one case = one real handshake between two mse.Stream endpoints (pads, fragmentation class and observed "
-                       "first-read sizes, payload size, offer, selection policy, key mode) or one real btconn Dial/Accept scenario "
+                       "first-read sizes - incl. the TLC-generated family long pad x first read ending at the key / inside the pad / at its end -, payload size, offer, selection policy, key mode) or one real btconn Dial/Accept scenario "
                        "(policy of each side, peer kind, pads) or one real torrent.Session (encryption switches) dialing a raw scripted listener "
                        "or one schedule of 2-3 simultaneous incoming handshakes with distinct initial payloads and interleaved reads; non-trivial = at least the first message was exchanged; "
                        "distinct = distinct (configuration, outcome) tuples")
@@ -35,6 +35,15 @@ def run(ctx):
         if line.startswith('"@@'):
             scen.append(json.loads(json.loads(line)[2:]))
     ses_scen = [x for x in scen if x.get("fam") == "ses"]
+    # fragmentation family (MC_MSE FragCases): long pads x class of the first read (key only / inside the pad / whole)
+    frag = [x for x in scen if x.get("fam") == "frag"]
+    frag.sort(key=lambda x: (x["padA"], x["padB"], x["frB"], x["frA"]))
+    if len(frag) < 200 or not any(x["padB"] >= 505 and x["clA"] != "whole" for x in frag) \
+            or not any(x["padA"] >= 493 and x["clB"] != "whole" for x in frag):
+        raise vlib.MachineryError("fragmentation family generator produced only %d cases / no long pad with a fragmented first read" % len(frag))
+    fragp = ctx.path("frag.ndjson")
+    vlib.write_ndjson(fragp, frag)
+    ctx.extra["fragmentation_cases_generated_by_tlc"] = len(frag)
     scen = [x for x in scen if "fam" not in x]
     if len(ses_scen) < 18:
         raise vlib.MachineryError("session matrix generator produced only %d scenarios" % len(ses_scen))
@@ -76,7 +85,7 @@ def run(ctx):
     procs = []
     for i in range(nsh):
         out = ctx.path("hs%d.ndjson" % i)
-        args = [drv, "-mode", "hs", "-n", str(n), "-seed", str(ctx.seed), "-shard", "%d/%d" % (i, nsh), "-out", out]
+        args = [drv, "-mode", "hs", "-n", str(n), "-seed", str(ctx.seed), "-shard", "%d/%d" % (i, nsh), "-frag", fragp, "-out", out]
         if not ctx.quick():
             args.append("-grid")
         e = dict(vlib.GOENV)
@@ -91,6 +100,15 @@ def run(ctx):
             raise vlib.MachineryError("hs driver failed (%d):\n%s" % (p.returncode, o[-3000:]))
         lines += vlib.read_ndjson(out)
     hs_lines = lines
+    nfrag = sum(1 for e in hs_lines if e.get("fam") == "frag")
+    if nfrag != len(frag) and not any(e["hang"] for e in hs_lines):
+        raise vlib.MachineryError("hs driver replayed %d of %d fragmentation cases" % (nfrag, len(frag)))
+    # the transport delivered the scripted first reads (observed sizes are what TLC judges; this is only the steering check)
+    want = set((x["padA"], x["padB"], x["frA"], x["frB"]) for x in frag)
+    off = [e for e in hs_lines if e.get("fam") == "frag" and e["frA"] >= 0 and e["frB"] >= 0 and e["hang"] == 0
+           and (e["padA"], e["padB"], e["frA"], e["frB"]) not in want]
+    if off:
+        raise vlib.MachineryError("first-read steering failed for %s" % json.dumps(off[0]))
     pol_out = ctx.path("pol.ndjson")
     ctx.run_drv(drv, ["-mode", "pol", "-scen", sp, "-seed", str(ctx.seed), "-reps", str(ctx.pick(1, 4)), "-out", pol_out], timeout=900)
     pol_lines = vlib.read_ndjson(pol_out)
@@ -133,7 +151,7 @@ def run(ctx):
 
 
 def hs_key(e):
-    return ("HS", e["padA"], e["padB"], e["padC"], e["padD"], e["chA"], e["chB"], e["frA"], e["frB"], e["ia"], e["provide"],
+    return ("HS", e.get("fam", ""), e["padA"], e["padB"], e["padC"], e["padD"], e["chA"], e["chB"], e["frA"], e["frB"], e["ia"], e["provide"],
             e["selpol"], e["keymode"], e["loose"], e["ra"], e["rb"], e["ca"], e["cb"])
 
 
@@ -169,6 +187,10 @@ def account(ctx, hs, pol):
             ctx.oblig("C12.cipher", 1)
             ctx.oblig("C12.stream", 1)
     ctx.extra["handshakes"] = len(hs)
+    ctx.extra["fragmentation_cases_replayed"] = sum(1 for e in hs if e.get("fam") == "frag")
+    # first read ended before the end of a long pad of the peer (the remaining scan is longer than 512 - marker length)
+    ctx.extra["handshakes_initiator_first_read_inside_long_padB"] = sum(1 for e in hs if e["padB"] >= 505 and 96 <= e["frA"] < 96 + e["padB"])
+    ctx.extra["handshakes_acceptor_first_read_inside_long_padA"] = sum(1 for e in hs if e["padA"] >= 493 and 96 <= e["frB"] < 96 + e["padA"])
     ctx.extra["policy_runs"] = len(pol)
     ctx.extra["policy_runs_with_redial"] = sum(1 for e in pol if e["natt"] > 1)
     ctx.extra["handshakes_completed"] = sum(1 for e in hs if e["ra"] == "ok" and e["rb"] == "ok")
